@@ -153,3 +153,7 @@ func Shared(cell any) {}
 // Peek reads a shared sync/atomic.Value cell without giving the environment a
 // turn: the content as left by the last atomic step of the code under contract.
 func Peek(cell any) any { panic("verifspec: ghost function") }
+
+// Old(e): the value of e in the state in which the function under contract
+// was called (function contracts only).  Sugar wraps e in a thunk.
+func Old(f func() any) any { panic("verifspec: ghost function") }
